@@ -645,8 +645,14 @@ func genH265DecCase(t *rapid.T) *H265DecCase {
 	switch c.Kind {
 	case "ap":
 		k := rapid.IntRange(2, 6).Draw(t, "napunits")
+		if rapid.IntRange(0, 19).Draw(t, "manyap") == 0 {
+			k = rapid.IntRange(7, 40).Draw(t, "napunitsmany")
+		}
 		for i := 0; i < k; i++ {
 			c.Units = append(c.Units, small())
+			if rapid.IntRange(0, 59).Draw(t, "bigapunit") == 0 {
+				c.Units[len(c.Units)-1].Len = rapid.SampledFrom([]int{255, 256, 257, 4000, 32767, 32768, 65535}).Draw(t, "bigapunitlen")
+			}
 			if i > 0 {
 				c.DONDs = append(c.DONDs, rapid.Byte().Draw(t, "dond"))
 			}
